@@ -23,6 +23,7 @@ class LZWDecoder:
         # NB: self.table stores None only in indices 256 and 257
         self.table: List[Optional[bytes]] = []
         self.prevbuf: Optional[bytes] = None
+        self.eod = False
 
     def readbits(self, bits: int) -> int:
         v = 0
@@ -58,7 +59,8 @@ class LZWDecoder:
             self.prevbuf = b""
             self.nbits = 9
         elif code == 257:
-            pass
+            # end of data: nothing that follows belongs to the stream
+            self.eod = True
         elif not self.prevbuf:
             x = self.prevbuf = cast(bytes, self.table[code])  # assume not None
         else:
@@ -92,6 +94,8 @@ class LZWDecoder:
                 # just ignore corrupt data and stop yielding there
                 break
             yield x
+            if self.eod:
+                break
 
             logger.debug(
                 "nbits=%d, code=%d, output=%r, table=%r",
